@@ -42,7 +42,10 @@ func (bc *Config) Backoff(attempt uint) time.Duration {
 	}
 	backoff, max := float64(bc.BaseDelay), float64(bc.MaxDelay)
 	backoff *= math.Pow(bc.Multiplier, float64(attempt))
-	backoff = math.Min(backoff, max)
+	if !(backoff < max) {
+		// also covers NaN (a zero base delay times an overflowed power)
+		backoff = max
+	}
 	// Randomize the backoff delay
 	r := rand.New(rand.NewSource(time.Now().UnixNano()))
 	backoff *= 1 + bc.Jitter*(r.Float64()*2-1)
